@@ -1849,7 +1849,11 @@ class TestGraph(object):
             if i == 0:
                 graph.new_objects(stubs)
             else:
-                graph.new_objects([s for s in stubs if s.key == "nets"])
+                # vm and image objects that only later workers can have (e.g. variants excluded by the first one)
+                known_ids = {o.id for o in graph.objects}
+                graph.new_objects(
+                    [s for s in stubs if s.key == "nets" or s.id not in known_ids]
+                )
             leaves = sorted(
                 leaves, key=lambda x: int(re.match(r"^(\d+)", x.prefix).group(1))
             )
